@@ -472,7 +472,12 @@ func Run(r *corr.Run) {
 		{deliver: 25, add: 30, snap: 8, drop: 30, dup: 2, delay: 5, sync: 5},
 	}
 	maxSched := r.Pick(400, 20000)
-	for k := 0; k < maxSched && r.TimeLeft() && r.Issues() == 0; k++ {
+	// thorough: half of the budget for random schedules, the rest for the exhaustive ones
+	randomUntil := r.Deadline
+	if !r.Quick() {
+		randomUntil = time.Now().Add(time.Until(r.Deadline) / 2)
+	}
+	for k := 0; k < maxSched && time.Now().Before(randomUntil) && r.Issues() == 0; k++ {
 		n := 2 + r.Intn(3)
 		steps := 8 + r.Intn(r.Pick(55, 120))
 		batch := 0
